@@ -144,12 +144,22 @@ func (e *Engine) unfoldInstance(st *State, fn *ssa.Function, args []Value) *smt.
 		panic("fold step function not found: " + stepName)
 	}
 	q, s, n := args[0], args[1].(SeqV), args[2].(IntV).T
-	cur := e.foldApp(fn, []Value{q, s, IntV{n}})
-	next := e.foldApp(fn, []Value{q, s, IntV{smt.Add(n, smt.IntC(1))}})
+	count := int64(1)
+	if len(args) > 3 {
+		count = args[3].(IntV).T.Int64()
+	}
 	zero := e.foldApp(fn, []Value{q, s, IntV{smt.IntC(0)}})
-	b := smt.Select(s.Arr, n)
-	stepped := e.callSpec(st, step, []Value{cur, IntV{b}})
-	return smt.And(e.valueEq(zero, q, true), smt.Implies(smt.Le(smt.IntC(0), n), e.valueEq(next, stepped, true)))
+	cs := []*smt.Term{e.valueEq(zero, q, true)}
+	var cur Value = e.foldApp(fn, []Value{q, s, IntV{n}})
+	for k := int64(0); k < count; k++ {
+		nk := smt.Add(n, smt.IntC(k))
+		next := e.foldApp(fn, []Value{q, s, IntV{smt.Add(nk, smt.IntC(1))}})
+		b := smt.Select(s.Arr, nk)
+		stepped := e.callSpec(st, step, []Value{cur, IntV{b}})
+		cs = append(cs, smt.Implies(smt.Le(smt.IntC(0), n), e.valueEq(next, stepped, true)))
+		cur = stepped
+	}
+	return smt.And(cs...)
 }
 
 // intercept implements calls that are modelled natively: the spec prelude Seq
